@@ -15,6 +15,8 @@ Classes of generated constraints (decided by an independent analysis, not by the
 """
 from __future__ import annotations
 
+from vf.bounded import _meta_guard as _g  # noqa: E402
+
 import hashlib
 import itertools
 import random
@@ -502,7 +504,7 @@ def exhaustive_chunk(args):
             continue
         mode, varnames = VARSETS[i % len(VARSETS)] if depth != "eq" else VARSETS[(i // 7) % len(VARSETS)]
         form = ("str", "list", "dict")[i % 3] if r is None else ("str", "list")[i % 2]
-        check_spec(acc, rng, mode, form, [(l, r, [0, 3, 2.5, -1][i % 4])], varnames, "exhaustive")
+        _g.guard(acc.fail, check_spec, acc, rng, mode, form, [(l, r, [0, 3, 2.5, -1][i % 4])], varnames, "exhaustive")
     return acc.n, acc.keys, acc.samples, acc.fails
 
 
@@ -526,7 +528,7 @@ def random_chunk(args):
             else:
                 l, r = random_tree(rng, total, names, linear_bias), None
             cons.append((l, r, rng.choice([0, 1, -2, 2.5, 0.125, 10])))
-        check_spec(acc, rng, mode, form, cons, varnames, "random")
+        _g.guard(acc.fail, check_spec, acc, rng, mode, form, cons, varnames, "random")
     return acc.n, acc.keys, acc.samples, acc.fails
 
 
@@ -541,6 +543,7 @@ def _collect(b, results, total):
 
 
 def run_bounded(ctx):
+    _g.begin("C16", ctx)
     total = {}
     depths = [0, 1, 2, "eq"] + ([3] if ctx.thorough else [])
     with ctx.bounded(
@@ -557,7 +560,7 @@ def run_bounded(ctx):
             nch = 16 if d in (3, "eq", 2) else 1
             tasks += [(ctx.seed, d, c, nch) for c in range(nch)]
         with ProcessPoolExecutor(16) as ex:
-            _collect(b, list(ex.map(exhaustive_chunk, tasks)), total)
+            _collect(b, _g.safe_map(exhaustive_chunk, tasks), total)
     with ctx.bounded(
         "constraint-specs-random",
         rule="seeded random specs: 1-3 constraints, each with <= 6 operators (incl. unary minus at the start of a parenthesised "
@@ -568,7 +571,7 @@ def run_bounded(ctx):
     ) as b:
         per = 1500 if ctx.thorough else 220
         with ProcessPoolExecutor(16) as ex:
-            _collect(b, list(ex.map(random_chunk, [(ctx.seed, c, per) for c in range(32 if ctx.thorough else 16)])), total)
+            _collect(b, _g.safe_map(random_chunk, [(ctx.seed, c, per) for c in range(32 if ctx.thorough else 16)]), total)
     ctx.assume(
         "A-float: A and b are float64; compared exactly as rationals with relative slack 1e-9 (literals like 0.1 and divisions round)",
         "C16-grammar: unary minus is only generated at the start of an expression or directly after '(' ; adjacent operators "
